@@ -503,3 +503,110 @@ def c11(tier, seed, **kw):
 @prop("C12")
 def c12(tier, seed, **kw):
     return _exec_prop("C12", tier, seed)
+
+
+# ----------------------------------------------------------------------------- C13 / C14: syscall histories
+
+def gen_sys_histories(seed, n, focus):
+    rng = random.Random(seed * 32452843 + 17)
+    lines, hist = [], {}
+
+    def h(k):
+        hist[k] = hist.get(k, 0) + 1
+
+    for k in range(n):
+        cid = "sys%d" % k
+        lines.append("case " + cid)
+        nsys = rng.randrange(3, 14)
+        lines.append("new %s 1000 1000" % ("0f05" * nsys))
+        lines.append("allregs " + " ".join("0" for _ in range(16)))
+        lines.append("allxmm " + " ".join("0" for _ in range(16)))
+        lines.append("stack 100")
+        buf = 0x8000
+        lines.append("init %x %s" % (buf, bytes(rng.randrange(256) for _ in range(256)).hex()))
+        if rng.random() < 0.3:
+            lines.append("zero %x %x" % (rng.choice([0x4000, 0x5000, 0x6000, 0x3800]), rng.choice([0x10, 0x100, 0x1000])))
+        which = ["brk", "pipe", "exit", "archprctl"]
+        rng.shuffle(which)
+        lines.append("syscalls " + " ".join(which[: rng.randrange(2, 5)] if rng.random() < 0.3 else which))
+        npipes = 0
+        heap = 0x3000
+        cur = 0x4000
+        for _ in range(nsys):
+            r = rng.random()
+            def call(rax, rdi=0, rsi=0, rdx=0):
+                lines.append("regw 64 RAX %x" % rax)
+                lines.append("regw 64 RDI %x" % (rdi & ((1 << 64) - 1)))
+                lines.append("regw 64 RSI %x" % rsi)
+                lines.append("regw 64 RDX %x" % rdx)
+                lines.append("step")
+                lines.append("regr 64 RAX")
+            if focus == "brk":
+                r = r * 0.5 if rng.random() < 0.8 else r
+            else:
+                r = 0.5 + r * 0.5 if rng.random() < 0.8 else r
+            if r < 0.12:
+                call(12, 0); h("brk-query")
+            elif r < 0.34:
+                target = cur + rng.choice([1, 8, 0x10, 0x100, 0x1000, 0x800, 0x3000, 0x5000])
+                call(12, target); h("brk-grow")
+                if target < 0x8000:
+                    cur = target
+            elif r < 0.44:
+                target = max(heap, cur - rng.choice([1, 8, 0x100, 0x800, 0x1000]))
+                call(12, target); cur = target; h("brk-shrink")
+            elif r < 0.47:
+                call(12, rng.choice([1, 0x2fff, heap - 1, 0x1000])); h("brk-below-base")
+            elif r < 0.50:
+                # guest access to the heap through the API
+                a = heap + rng.randrange(0, max(1, cur - heap))
+                if rng.random() < 0.5:
+                    lines.append("memw %x %s" % (a, bytes(rng.randrange(256) for _ in range(rng.choice([1, 4, 8]))).hex())); h("heap-store")
+                else:
+                    lines.append("memr %x %x" % (a, rng.choice([1, 4, 8, 16]))); h("heap-load")
+            elif r < 0.62:
+                ptr = buf + 16 * (npipes % 8) if rng.random() < 0.9 else rng.choice([0, 0x7ff8, buf + 250])
+                call(22, ptr); h("pipe")
+                if buf <= ptr <= buf + 240:
+                    npipes += 1
+            elif r < 0.80:
+                fd = 1025 + 2 * rng.randrange(max(1, npipes)) if rng.random() < 0.85 else rng.choice([0, 1, 2, 1024, 99999])
+                cnt = rng.choice([0, 1, 2, 5, 16, 64, 255, 300])
+                call(1, fd, buf + rng.randrange(0, 64), cnt); h("write")
+            elif r < 0.96:
+                fd = 1024 + 2 * rng.randrange(max(1, npipes)) if rng.random() < 0.85 else rng.choice([0, 1, 3, 1025, 99999])
+                cnt = rng.choice([0, 1, 2, 3, 8, 16, 100, 1000])
+                call(0, fd, buf + 128 + rng.randrange(0, 32), cnt); h("read")
+            elif r < 0.98:
+                call(158, rng.choice([0x1001, 0x1002, 0x1003, 0x1004, 5]), rng.choice([buf, 0, 0x3000])); h("arch_prctl")
+            else:
+                call(60, 3); h("exit")
+            if rng.random() < 0.25:
+                lines.append("dump")
+        lines.append("dump")
+        lines.append("end")
+    return lines, hist
+
+
+def _sys_prop(prop_id, tier, seed):
+    n = 500 if tier == "quick" else 20000
+    lines, hist = gen_sys_histories(seed, n, "brk" if prop_id == "C13" else "pipe")
+    return hand_check(
+        prop_id, lines, hist,
+        rule="guest programs made of SYSCALL instructions with the built-in handlers installed; register arguments "
+             "chosen per call: brk query/grow/shrink/below-base/collision with neighbouring areas, pipe creation, "
+             "writes and reads of sizes 0..1000 on valid, stale and non-pipe descriptors, arch_prctl, exit; heap "
+             "loads/stores through the API in between; non-trivial = at least one handled syscall; distinct sequences",
+        nontrivial=lambda b: any(x == "step" for x in b),
+        project=lambda r: project_generic(r, ("d regs", "d misc", "d area", "d sys")),
+        impl_checks=check_disjoint)
+
+
+@prop("C13")
+def c13(tier, seed, **kw):
+    return _sys_prop("C13", tier, seed)
+
+
+@prop("C14")
+def c14(tier, seed, **kw):
+    return _sys_prop("C14", tier, seed)
